@@ -2415,9 +2415,9 @@ impl Fs {
     /// List entries in a directory.
     /// Returns paths of files, directories, and symlinks that are direct children of the given path.
     pub(crate) fn dir_entries(&self, path: &Path) -> Vec<PathBuf> {
-        use std::collections::HashSet;
-
-        let mut entries: HashSet<PathBuf> = HashSet::new();
+        // Insertion-ordered: the order of the returned listing must not depend
+        // on the per-process hash seed of a std `HashSet`.
+        let mut entries: IndexSet<PathBuf> = IndexSet::new();
 
         // Add persisted files in this directory
         for file_path in self.persisted_files.keys() {
